@@ -145,6 +145,16 @@ def make_builtins(it):
         def f(*args, key=None, default=None):
             if len(args) == 1 and key is None and default is None and isinstance(args[0], Sym) and hasattr(args[0], "reduce_min"):
                 return args[0].reduce_min(it, name)
+            if len(args) == 1 and key is not None and isinstance(args[0], Sym) and type(args[0]).__name__ in ("SSet", "SColl"):
+                # min / max of a SYMBOLIC set under a key: which element wins depends on keys the proof does
+                # not track; the result is modelled as an arbitrary element of the set (an over-approximation:
+                # whatever is proved holds for every choice)
+                c_ = args[0]
+                if not it.truth(c_.nonempty(it)):
+                    it.throw("ValueError", f"{name}() arg is an empty sequence")
+                x_ = c_.elem.fresh(it, "selected")
+                it.ctx.assume(z3.Select(c_.arr, x_))
+                return c_.elem.wrap(x_)
             items = it.iterate(args[0]) if len(args) == 1 else list(args)
             if not items:
                 if default is not None:
